@@ -26,11 +26,25 @@
 pub mod rip_kernel { pub use super::{ContextSelectionCompactionCheckpointV1, ContextSelectionResetV1}; }
 //@@ fn crates/ripd/src/continuities.rs parse_compaction_job_created_checkpoints
 //@@ end
+//@@ item crates/ripd/src/continuities.rs struct ContextCompileInput
+//@@ item crates/ripd/src/continuities.rs struct CompactionCheckpointForCompile
+//@@ item crates/ripd/src/context_compiler.rs const RECENT_MESSAGES_V1_LIMIT
+//@@ item crates/ripd/src/context_compiler.rs struct SelectedMessage
+//@@ fn crates/ripd/src/context_compiler.rs select_recent_messages
+//@@ end
+//@@ fn crates/ripd/src/continuities.rs resolve_cutpoint_from_tail
+//@@ end
+//@@ fn crates/ripd/src/continuities.rs resolve_context_compile_cutpoint_full
+//@@ end
 impl ContinuityStore {
     pub fn get(&self, id: &str) -> Option<ContinuityMeta> { if self.event_log.frames.borrow().iter().any(|e| e.session_id == id) { Some(ContinuityMeta { continuity_id: id.to_string(), created_at_ms: 0, title: None, archived: false }) } else { None } }
     //@@ fn crates/ripd/src/continuities.rs ContinuityStore::append_provider_cursor_updated
     //@@ end
     //@@ fn crates/ripd/src/continuities.rs ContinuityStore::append_context_selection_decided
+    //@@ end
+    //@@ fn crates/ripd/src/continuities.rs ContinuityStore::append_run_spawned
+    //@@ end
+    //@@ fn crates/ripd/src/continuities.rs ContinuityStore::append_run_ended
     //@@ end
     //@@ fn crates/ripd/src/continuities.rs ContinuityStore::compaction_status_v1
     //@@ end
@@ -40,6 +54,70 @@ impl ContinuityStore {
     //@@ end
     //@@ fn crates/ripd/src/continuities.rs ContinuityStore::context_selection_status_v1
     //@@ end
+    //@@ fn crates/ripd/src/continuities.rs ContinuityStore::load_context_compile_input_recent_messages_v1
+    //@@ end
+    //@@ fn crates/ripd/src/continuities.rs ContinuityStore::latest_compaction_checkpoint_for_compile_v1
+    //@@ end
+    //@@ fn crates/ripd/src/continuities.rs ContinuityStore::hierarchical_compaction_checkpoints_for_compile_v1
+    //@@ end
+}
+// the context a run is compiled from, observed through what the compiler takes from it: the cut point and the selected messages
+fn compile_view(st: &ContinuityStore, anchor: &str) -> String {
+    reset_scans();
+    match st.load_context_compile_input_recent_messages_v1(T, anchor) {
+        Err(e) => format!("Err({e})"),
+        Ok(inp) => format!("from_seq={} from_message_id={:?} selected={:?}", inp.from_seq, inp.from_message_id, select_recent_messages(&inp.continuity_events, inp.from_seq, RECENT_MESSAGES_V1_LIMIT).iter().map(|m| m.seq).collect::<Vec<_>>()),
+    }
+}
+fn checkpoint_views(st: &ContinuityStore, from_seq: u64) -> String {
+    reset_scans();
+    let latest = st.latest_compaction_checkpoint_for_compile_v1(T, from_seq).map(|o| o.map(|c| (c.checkpoint_id, c.to_seq)));
+    let hier: Vec<_> = (0..=3usize).map(|lv| st.hierarchical_compaction_checkpoints_for_compile_v1(T, from_seq, lv).map(|v| v.into_iter().map(|c| (c.checkpoint_id, c.to_seq)).collect::<Vec<_>>())).collect();
+    format!("latest={:?} hierarchical(levels 0..3)={:?}", latest, hier)
+}
+fn compile_input_clauses() -> bool {
+    // (a) threads of 17-20 messages with run frames: the tail read path with every window size must hand the compiler the same cut and the same 16 messages as the truth log
+    for n_msgs in [17usize, 20] { for pattern in 0..3u8 {
+        let mk = |mode: u8, window: Option<usize>| { let st = fresh(mode, window); let mut ids = Vec::new();
+            for i in 0..n_msgs { let id = st.append_message(T, "user".into(), "o".into(), format!("m{i}")).unwrap(); ids.push(id.clone());
+                if pattern >= 1 { st.append_run_spawned(T, &id, &format!("run{i}"), "u".into(), "o".into()).unwrap(); }
+                if pattern == 2 || (pattern == 1 && i % 3 == 0) { st.append_run_ended(T, &id, &format!("run{i}"), "completed".into(), "u".into(), "o".into()).unwrap(); } }
+            (st, ids) };
+        let (truth_st, ids) = mk(0, None);
+        for (ai, anchor) in ids.iter().enumerate() {
+            let want = compile_view(&truth_st, anchor);
+            for window in [None, Some(1usize), Some(5), Some(16), Some(17), Some(18), Some(24), Some(40)] {
+                let (st, ids2) = mk(1, window);
+                let got = compile_view(&st, &ids2[ai]);
+                // ids are generated per store: compare through positions
+                let norm = |s: &str, ids: &Vec<String>| { let mut t = s.to_string(); for (k, id) in ids.iter().enumerate() { t = t.replace(id.as_str(), &format!("msg#{k}")); } t };
+                if norm(&got, &ids2) != norm(&want, &ids) {
+                    println!("WITNESS {{\"function\": \"ContinuityStore::load_context_compile_input_recent_messages_v1\", \"messages\": {}, \"run_frames\": {:?}, \"anchor_message_number\": {}, \"messages_runs_tail_window\": {:?}, \"compile_input_with_caches\": {:?}, \"compile_input_from_the_truth_log\": {:?}, \"problem\": \"the context compiled for a run depends on the state of the rebuildable caches\"}}", n_msgs, ["none", "spawned for every message, ended for every third", "spawned and ended for every message"][pattern as usize], ai, window, norm(&got, &ids2), norm(&want, &ids));
+                    return true;
+                }
+            }
+        }
+    } }
+    // (b) checkpoint selection for compile (latest, and the halving hierarchy): 9 or 12 messages, manual checkpoints at every subset of 4 chosen
+    //     messages in both append orders, optionally one cut point summarised twice; caches present vs absent, at the head and mid-thread
+    for n_msgs in [9usize, 12] { for mask in 0..16u32 { for rev in [false, true] { for dup in [false, true] {
+        let positions: Vec<usize> = [1usize, n_msgs / 3, n_msgs / 2, n_msgs - 1].iter().enumerate().filter(|(b, _)| (mask >> b) & 1 == 1).map(|(_, p)| *p).collect();
+        let mk = |mode: u8| { let st = fresh(mode, None); let mut seqs = Vec::new();
+            for i in 0..n_msgs { st.append_message(T, "user".into(), "o".into(), format!("m{i}")).unwrap(); seqs.push(st.event_log.frames.borrow().last().unwrap().seq); }
+            let mut order = positions.clone(); if rev { order.reverse(); } if dup { if let Some(p) = positions.first() { order.push(*p); } }
+            for p in order { st.compaction_checkpoint_cumulative_v1(T, CompactionCheckpointCumulativeV1Request { summary_markdown: Some("s".into()), summary_artifact_id: None, to_message_id: None, to_seq: Some(seqs[p]), stride_messages: None, actor_id: "u".into(), origin: "o".into() }).unwrap(); }
+            st };
+        let (a, b) = (mk(0), mk(1));
+        let head = a.event_log.frames.borrow().last().unwrap().seq;
+        for from_seq in [head, (n_msgs / 2 + 1) as u64, 2, 0] {
+            let (want, got) = (checkpoint_views(&a, from_seq), checkpoint_views(&b, from_seq));
+            if want != got {
+                println!("WITNESS {{\"function\": \"ContinuityStore::hierarchical_compaction_checkpoints_for_compile_v1\", \"messages\": {}, \"checkpoints_at_message_numbers\": {:?}, \"appended_newest_first\": {}, \"first_cut_point_summarised_twice\": {}, \"from_seq\": {}, \"answer_with_caches\": {:?}, \"answer_from_the_truth_log\": {:?}, \"problem\": \"the checkpoints selected for compilation depend on the state of the rebuildable caches\"}}", n_msgs, positions, rev, dup, from_seq, got, want);
+                return true;
+            }
+        }
+    } } } }
+    false
 }
 
 const T: &str = "t";
@@ -80,6 +158,7 @@ const NAMES: [&str; 4] = ["ContinuityStore::compaction_status_v1", "ContinuitySt
 
 fn main() {
     let hook = std::panic::take_hook(); std::panic::set_hook(Box::new(|_| {}));
+    if compile_input_clauses() { return; }
     let max_len: usize = if std::env::var("VX_TIER").as_deref() == Ok("thorough") { 6 } else { 5 };
     for n in 0..=max_len { for code in 0..7usize.pow(n as u32) {
         let mut c = code; let ops: Vec<u8> = (0..n).map(|_| { let o = (c % 7) as u8; c /= 7; o }).collect();
